@@ -15,7 +15,7 @@ fn rand_desc(r: &mut Rng) -> Descriptor {
     // vary the DPL explicitly
     let lo = if r.chance(1, 2) { (lo & !(3 << 45)) | (r.below(4) << 45) } else { lo };
     if r.chance(1, 3) {
-        Descriptor::SystemSegment(lo, r.next())
+        Descriptor::SystemSegment(lo, if r.chance(1, 3) { 0 } else { r.next() })
     } else {
         Descriptor::UserSegment(lo)
     }
@@ -69,6 +69,32 @@ fn history<const MAX: usize>(rep: &mut Report, r: &mut Rng) {
     let mut panics = 0;
     for _ in 0..steps {
         rep.eval();
+        // now and then the table is overwritten with a copy of another one (shorter, longer or equal): afterwards it is
+        // that table, and appending goes on from there
+        if r.chance(1, if MAX > 100 { 2000 } else { 10 }) {
+            let len = match r.below(4) {
+                0 => 1,
+                1 => shadow.len(),
+                2 => 1 + r.below(shadow.len() as u64) as usize,
+                _ => 1 + r.below(MAX as u64) as usize,
+            };
+            let mut v: Vec<u64> = (0..len).map(|_| if r.chance(1, 4) { 0 } else { r.next() }).collect();
+            v[0] = 0;
+            log.push(J::s(format!("clone_from(table with {} entries)", len)));
+            let ok = catch(|| {
+                let other = Box::new(GlobalDescriptorTable::<MAX>::from_raw_entries(&v));
+                g.clone_from(&other);
+            });
+            if ok.is_err() {
+                rep.violation("clone_from|panicked", J::obj(vec![("max", J::U(MAX as u64)), ("len", J::U(len as u64))]));
+                return;
+            }
+            shadow = v;
+            if !check_state(rep, &g, &shadow, &log, "clone_from") {
+                return;
+            }
+            rep.class(&format!("max={}|clone_from|{}", MAX, if len < 3 { "short" } else { "long" }));
+        }
         let d = if MAX > 100 && shadow.len() + 8 < MAX && r.chance(9, 10) { Descriptor::UserSegment(r.next()) } else { rand_desc(r) };
         let (need, lo) = match d {
             Descriptor::UserSegment(v) => (1, v),
@@ -97,6 +123,11 @@ fn history<const MAX: usize>(rep: &mut Report, r: &mut Rng) {
                 if sel.0 != exp {
                     let what = if sel.0 >> 3 != first as u16 { "selector-index-is-not-first-slot" } else if sel.0 & 4 != 0 { "selector-refers-to-ldt" } else { "selector-rpl-differs-from-descriptor-dpl" };
                     rep.violation(&format!("append|{}", what), J::obj(vec![("max", J::U(MAX as u64)), ("selector", J::hex(sel.0 as u64)), ("expected", J::hex(exp as u64)), ("descriptor_low", J::hex(lo))]));
+                    return;
+                }
+                // the accessors of the returned selector say the same as its raw bits
+                if catch(|| sel.index() != first as u16 || sel.rpl() as u16 != dpl) != Ok(false) {
+                    rep.violation("append|selector-accessors-disagree-with-first-slot-and-dpl", J::obj(vec![("max", J::U(MAX as u64)), ("selector", J::hex(sel.0 as u64)), ("first_slot", J::U(first as u64)), ("index()", J::s(format!("{:?}", catch(|| sel.index())))), ("rpl()", J::s(format!("{:?}", catch(|| sel.rpl()))))]));
                     return;
                 }
                 if d.dpl() as u16 != dpl {
